@@ -9,7 +9,7 @@ rm -rf "$d/repo/target"
 rsync -a --exclude target /verif/harness/ "$d/harness/"
 sed -i "s#path = \"/repo\"#path = \"$d/repo\"#" "$d/harness/Cargo.toml"
 sed -i "s#/verif/.build/target#$d/target#" "$d/harness/.cargo/config.toml"
-echo '[]' > "$d/out/known_findings.json"
+cp /verif/known_findings.json "$d/out/known_findings.json"
 cat > "$d/run" <<EOS
 #!/bin/bash
 # usage: $d/run <bin> [--tier quick|thorough]
